@@ -11,6 +11,7 @@ INVARIANT ShortCircuit
 INVARIANT CtorLaw
 INVARIANT Unorderable
 INVARIANT HistoryFree
+INVARIANT CheckContains
 CHECK_DEADLOCK FALSE
 CONSTANTS
   Mutant = "msub_returns_sub"
